@@ -364,6 +364,9 @@ type Scenario struct {
 	CheckDirEvery bool
 	// AfterCrash is called right after the crash was injected (monitor context)
 	AfterCrash func(w *World)
+	// FaultAt > 0: the FaultAt-th hooked filesystem operation of process FaultProc
+	// fails with an injected I/O error (once)
+	FaultProc, FaultAt int
 }
 
 type Result struct {
@@ -427,6 +430,9 @@ func (l *Lab) Run(sc *Scenario, dirName string) *Result {
 		if sc.CrashAt > 0 && sc.CrashProc == i {
 			p.CrashAt = sc.CrashAt
 		}
+		if sc.FaultAt > 0 && sc.FaultProc == i {
+			p.FaultAt = sc.FaultAt
+		}
 		res.Procs = append(res.Procs, p)
 	}
 	s.Run()
@@ -485,8 +491,23 @@ func (res *Result) finalChecks() {
 	for _, id := range strings.Split(journal, ",") {
 		in[id] = true
 	}
-	for _, h := range w.Hist {
+	for hi := range w.Hist {
+		h := &w.Hist[hi]
 		if h.Kind != "add" || h.Return < 0 {
+			continue
+		}
+		if h.Indeterminate {
+			// failed by an injected I/O error: took effect or not, but not partially
+			n := 0
+			for _, id := range h.TxnIDs {
+				if in[fmt.Sprint(id)] {
+					n++
+				}
+			}
+			if n != 0 && n != len(h.TxnIDs) {
+				w.violate([]string{"C04"}, "io-failed-addition-partially-visible", "Addition %v failed by an injected I/O error is partially in the final state (journal %s)", h.TxnIDs, journal)
+			}
+			h.Ok = n > 0
 			continue
 		}
 		for _, id := range h.TxnIDs {
